@@ -51,7 +51,7 @@ pub fn plans() -> Vec<Plan> {
             engine: "world",
             level: "exploration",
             quick_runs: 4000,
-            thorough_runs: 800_000,
+            thorough_runs: 500_000,
             rule: "one run = one world (multiset of generated declarations, valid or with one planted fault) realised in 10 (quick) / 24 (thorough) variants drawn from the scheduler's choices: declaration permutation x partition into <=3 files x argv list/directory/mixture x readdir permutation x hash seed (OS randomness) x entry point (cli::check / Project API), plus repeats that differ only in the hash seed. distinct = distinct trace JSON (by 64-bit hash); non-trivial = at least 2 variants of a non-empty world (so the metamorphic oracle compared something).",
             assumptions: &[
                 "the world generator's notion of 'declaration' (one top-level element per text block) is what C06 permutes",
@@ -78,7 +78,7 @@ pub fn plans() -> Vec<Plan> {
             level: "fault_enumeration",
             quick_runs: 12_000,
             thorough_runs: 1_200_000,
-            rule: "one run = one generated file set (valid or single-fault world, 1-3 files) on the simulated disk, executed as: check <dir>; check <files in 1-3 shuffled orders>; a mixture (same file twice / file plus its directory); echo and tokenize; and 3 (quick) / 6 (thorough) fault-injecting executions, each with one static fault (missing path, dangling symlink, symlink loop, empty directory, sub-directory, symlink to file, missing directory, no arguments, dotted path) or one dynamic storage fault (vanish, file<->dir, rewrite, truncate, append, dangling symlink) placed at a random fs-point of that execution. distinct = distinct trace JSON; non-trivial = at least 2 executions of a non-empty world.",
+            rule: "one run = one generated file set (valid or single-fault world, 1-3 files) on the simulated disk, executed as: check <dir>; check <files> in every argument order (up to 3 files; 1-3 shuffled orders beyond); a mixture (same file twice / file plus its directory); echo and tokenize; and 3 (quick) / 6 (thorough) fault-injecting executions, each with one static fault (missing path, dangling symlink, symlink loop, empty directory, sub-directory, symlink to file, missing directory, no arguments, dotted path) or one dynamic storage fault (vanish, file<->dir, rewrite, truncate, append, dangling symlink) placed at a random fs-point of that execution. distinct = distinct trace JSON; non-trivial = at least 2 executions of a non-empty world.",
             assumptions: &[
                 "exit status = the Result returned by the entry function (main returns it unchanged)",
                 "'a coded diagnostic reached the terminal' = it was handed to the renderer and codespan did not refuse it (emit.failed probe)",
